@@ -1565,11 +1565,14 @@ func (s *Store) processLTXStreamFrame(ctx context.Context, frame *LTXStreamFrame
 		return nil
 	}
 
-	// If we receive an LTX file while holding the remote HALT lock then the
-	// remote lock must have expired or been released so we can clear it locally.
+	// If we receive an LTX file beyond the position of our remote HALT lock then
+	// the primary has moved on without us so the remote lock must have expired
+	// or been released and we can clear it locally. Files up to the lock's
+	// position were committed before the lock was granted; they are what
+	// AcquireRemoteHaltLock is waiting for and must not clear the lock.
 	//
 	// We also hold the local WRITE lock so a local write cannot be in-progress.
-	if haltLock := db.RemoteHaltLock(); haltLock != nil {
+	if haltLock := db.RemoteHaltLock(); haltLock != nil && hdr.MaxTXID > haltLock.Pos.TXID {
 		TraceLog.Printf("[ProcessLTXStreamFrame.Unhalt(%s)]: replica holds HALT lock but received LTX file, unsetting HALT lock", db.Name())
 		if err := db.unsetRemoteHaltLock(ctx, haltLock.ID, true); err != nil {
 			return fmt.Errorf("release remote halt lock: %w", err)
